@@ -276,6 +276,7 @@ structure Mod where
   mode : Name
   visFile : Bool := false               -- `--visibility file`
   schemas : List Name                   -- component schema names of the spec
+  refd : Option (List Name) := none     -- component schemas that some `$ref` of the document points to (none: not given)
   items : List Item
   imports : List (Name × List Name)     -- per file: identifiers of its `use` trees
   mentions : List (Name × List Name)    -- per file: capitalised single-segment type names mentioned
@@ -447,7 +448,9 @@ def routingFns : List Name := ["get", "post", "put", "delete", "patch", "head", 
 
 /-- the class a violation falls in, if it has one of the characterised SHAPES (everything else is unlisted) -/
 def classOf (m : Mod) : Viol → Option String
-  | .undefinedType n => if m.schemas.contains n then some "KnownSchemaNotEmitted" else none
+  -- F01-3: a component that the document REFERENCES through an edge the dependency collector misses. A component that no
+  -- `$ref` points to can only be named by the output through structural identification — that is not this class.
+  | .undefinedType n => if m.schemas.contains n && (match m.refd with | some r => r.contains n | none => true) then some "KnownSchemaNotEmitted" else none
   | .privateAcross _ _ => if m.visFile then some "KnownFileVisModule" else none
   | .serde _ _ _ viaMap viaArr viaResp =>
       if viaMap then some "KnownSerdeMapEdge" else if viaArr then some "KnownSerdeNestedArrayEdge"
